@@ -368,11 +368,11 @@ def case_strict(case, res):
 def gen_cases(tier, seed):
     cases = []
     q = tier == "quick"
-    for i in range(8 if q else 48):
+    for i in range(8 if q else 320):
         cases.append({"kind": "tuples", "idx": i, "n": 400 if q else 2000, "n_eager": 25 if q else 60, "seed": seed, "cost": 3})
-    for i in range(6 if q else 24):
+    for i in range(6 if q else 160):
         cases.append({"kind": "ladder", "idx": i, "n": 4000 if q else 40000, "seed": seed, "cost": 2})
-    for i in range(4 if q else 16):
+    for i in range(4 if q else 96):
         cases.append({"kind": "strict", "idx": i, "n": 3000 if q else 30000, "seed": seed, "cost": 2})
     if q:
         # hints verified black-box; if none verifies (key use changed) a 2^25 search runs
